@@ -30,6 +30,7 @@ def run(chk, tier):
     _SB.positive_control(chk)
     from ..rules import iters as _ITE
     _ITE.erase_count_area(chk, db, ['_set/', '_flat_set/'])      # ERASECNT: erase / erase_if return the number of erased elements
+    _ITE.equal_range_area(chk, db, ['_set/', '_flat_set/', '_algorithm/equal_range'])      # EQRANGE
     from ..rules import initform as _IF
     _IF.check(chk, db, ['_set/', '_flat_set/'])      # INITFORM: emplace direct-non-list-initialises the key
     totals = {}
@@ -44,6 +45,7 @@ def run(chk, tier):
             totals["S3"] = totals.get("S3", 0) + SR.s3_erase_by_key(chk, db, rq, funcs)
             totals["S4"] = totals.get("S4", 0) + SR.s4_lookup(chk, db, rq, funcs)
             totals["S7"] = totals.get("S7", 0) + SR.s7_insert_result(chk, db, rq, funcs)
+            totals["S8"] = totals.get("S8", 0) + SR.s8_new_position(chk, db, rq, funcs)
         totals["S5"] = totals.get("S5", 0) + SR.s5_iterator_reuse(chk, funcs)
         totals["S6"] = totals.get("S6", 0) + SR.s6_handover(chk, db, rq, funcs)
     floors = {"S1": 26, "S2": 2, "S3": 2, "S4": 6, "S5": 3, "S6": 1, "S7": 2}
